@@ -136,6 +136,47 @@ where
         ));
         put("get", parts.join(","));
     }
+    // get_decodable::<T> for a few T on every key: u64, Bytes, String, Vec<Bytes>
+    {
+        let keys: Vec<Vec<u8>> = e.iter().map(|(k, _)| k.clone()).collect();
+        let mut parts = Vec::new();
+        for k in &keys {
+            let a = g(
+                || e.get_decodable::<u64>(k),
+                |r| match r {
+                    Some(Ok(n)) => n.to_string(),
+                    Some(Err(_)) => "e".into(),
+                    None => "n".into(),
+                },
+            );
+            let b = g(
+                || e.get_decodable::<bytes::Bytes>(k),
+                |r| match r {
+                    Some(Ok(x)) => hx(&x),
+                    Some(Err(_)) => "e".into(),
+                    None => "n".into(),
+                },
+            );
+            let c = g(
+                || e.get_decodable::<String>(k),
+                |r| match r {
+                    Some(Ok(x)) => hx(x.as_bytes()),
+                    Some(Err(_)) => "e".into(),
+                    None => "n".into(),
+                },
+            );
+            let d = g(
+                || e.get_decodable::<Vec<bytes::Bytes>>(k),
+                |r| match r {
+                    Some(Ok(x)) => format!("[{}]", x.iter().map(|y| hx(y)).collect::<Vec<_>>().join(";")),
+                    Some(Err(_)) => "e".into(),
+                    None => "n".into(),
+                },
+            );
+            parts.push(format!("{}:{}/{}/{}/{}", hx(k), a, b, c, d));
+        }
+        put("gd", if parts.is_empty() { "-".into() } else { parts.join(",") });
+    }
     // text forms
     let text = guard(|| e.to_base64());
     put("text", text.clone().unwrap_or("panic".into()));
